@@ -65,6 +65,10 @@ pub struct Template {
     /// Report settings that come with a manifest variant (the sources were
     /// edited together with the manifest).
     pub variant_reports: BTreeMap<usize, BTreeMap<String, Vec<String>>>,
+    /// Declared outputs the commands never produce.
+    pub skip_outputs: Vec<String>,
+    /// Files a command rewrites in place while running (by first output).
+    pub side_touch: BTreeMap<String, Vec<String>>,
 }
 
 fn e(f: &str) -> (EdgeKind, String) {
@@ -140,6 +144,8 @@ pub fn templates() -> Vec<Template> {
                 generator: false,
                 removable_sources: vec!["lib.in".into()],
                 variant_reports: BTreeMap::new(),
+            skip_outputs: vec![],
+            side_touch: BTreeMap::new(),
             });
         }
     }
@@ -172,6 +178,8 @@ pub fn templates() -> Vec<Template> {
             generator: false,
             removable_sources: vec![],
             variant_reports: BTreeMap::new(),
+            skip_outputs: vec![],
+            side_touch: BTreeMap::new(),
         });
     }
 
@@ -214,6 +222,8 @@ pub fn templates() -> Vec<Template> {
             generator: false,
             removable_sources: vec![],
             variant_reports: BTreeMap::new(),
+            skip_outputs: vec![],
+            side_touch: BTreeMap::new(),
         });
     }
 
@@ -250,6 +260,8 @@ pub fn templates() -> Vec<Template> {
             ]
             .into_iter()
             .collect(),
+            skip_outputs: vec![],
+            side_touch: BTreeMap::new(),
         });
     }
 
@@ -257,6 +269,7 @@ pub fn templates() -> Vec<Template> {
     {
         let mk = |content: &str, path: &str| {
             let mut s = st("lib", "AR @rsp", vec![e("o1.in"), e("o2.in")]);
+            s.implicit_outs = vec!["lib.map".into()];
             s.rspfile = Some((path.to_string(), content.to_string()));
             Project {
                 steps: vec![s, st("app", "LINK", vec![e("lib")])],
@@ -276,6 +289,8 @@ pub fn templates() -> Vec<Template> {
             generator: false,
             removable_sources: vec![],
             variant_reports: BTreeMap::new(),
+            skip_outputs: vec![],
+            side_touch: BTreeMap::new(),
         });
     }
 
@@ -302,14 +317,80 @@ pub fn templates() -> Vec<Template> {
             generator: false,
             removable_sources: vec![],
             variant_reports: BTreeMap::new(),
+            skip_outputs: vec![],
+            side_touch: BTreeMap::new(),
+        });
+    }
+
+    // 6b. two compile steps sharing a header; the first declares an output it
+    //     never produces (so it is never recorded)
+    {
+        let cc = |out: &str, extra: Option<&str>, src: &str| {
+            let mut s = st(out, &format!("CC {}", src), vec![e(src)]);
+            if let Some(x) = extra {
+                s.outs.push(x.to_string());
+            }
+            s.depfile = Some(format!("{}.d", out));
+            s
+        };
+        let base = Project {
+            steps: vec![cc("x.o", Some("x.tmp"), "x.c"), cc("y.o", None, "y.c"), st("app", "LINK", vec![e("x.o"), e("y.o")])],
+            ..Default::default()
+        };
+        out.push(Template {
+            name: "two-objects",
+            variants: vec![base],
+            manifest_name: "build.ninja".into(),
+            headers: vec!["common.h".into(), "y.h".into()],
+            reports: [
+                ("x.o".to_string(), vec!["common.h".to_string()]),
+                ("y.o".to_string(), vec!["common.h".to_string(), "y.h".to_string()]),
+            ]
+            .into_iter()
+            .collect(),
+            report_options: vec![("y.o".into(), vec![vec!["common.h".into()], vec!["common.h".into(), "y.h".into()], vec!["y.h".into()]])],
+            restat_like: vec![],
+            targets: vec![vec!["y.o".into()]],
+            fail_cmds: vec!["LINK".into()],
+            generator: false,
+            removable_sources: vec![],
+            variant_reports: BTreeMap::new(),
+            skip_outputs: vec!["x.tmp".into()],
+            side_touch: BTreeMap::new(),
+        });
+    }
+
+    // 6c. a step that refreshes a file it also reports as a dependency
+    {
+        let mut idx = st("index", "INDEX", vec![e("idx.in")]);
+        idx.depfile = Some("index.d".into());
+        let base = Project {
+            steps: vec![idx, st("gen", "GENERATE", vec![e("index")]), st("plain", "PLAIN", vec![e("plain.in")])],
+            ..Default::default()
+        };
+        out.push(Template {
+            name: "self-touch",
+            variants: vec![base],
+            manifest_name: "build.ninja".into(),
+            headers: vec!["cache.h".into(), "other.h".into()],
+            reports: [("index".to_string(), vec!["cache.h".to_string(), "other.h".to_string()])].into_iter().collect(),
+            report_options: vec![("index".into(), vec![vec!["cache.h".into()], vec!["cache.h".into(), "other.h".into()]])],
+            restat_like: vec![],
+            targets: vec![vec!["gen".into()]],
+            fail_cmds: vec!["GENERATE".into()],
+            generator: false,
+            removable_sources: vec![],
+            variant_reports: BTreeMap::new(),
+            skip_outputs: vec![],
+            side_touch: [("index".to_string(), vec!["cache.h".to_string()])].into_iter().collect(),
         });
     }
 
     // 7. generator producing the manifest
-    for manifest_name in ["build.ninja", "gen.ninja"] {
-        let variants: Vec<Project> = (0..8).map(|v| crate::scen::regen_project(manifest_name, 1, v)).collect();
+    for (manifest_name, shared, tname) in [("build.ninja", 1usize, "generator"), ("gen.ninja", 1, "generator-f"), ("build.ninja", 4, "generator-split")] {
+        let variants: Vec<Project> = [0usize, 1, 2, 3, 4, 5, 6, 7, 9, 10].iter().map(|&v| crate::scen::regen_project(manifest_name, shared, v)).collect();
         out.push(Template {
-            name: if manifest_name == "build.ninja" { "generator" } else { "generator-f" },
+            name: tname,
             variants,
             manifest_name: manifest_name.into(),
             headers: vec![],
@@ -321,6 +402,8 @@ pub fn templates() -> Vec<Template> {
             generator: true,
             removable_sources: vec![],
             variant_reports: BTreeMap::new(),
+            skip_outputs: vec![],
+            side_touch: BTreeMap::new(),
         });
     }
     out
@@ -330,10 +413,10 @@ pub fn templates() -> Vec<Template> {
 pub fn jobs(prop: &str, tier: Tier) -> Vec<(String, u64)> {
     let depth = tier.pick(2, 3);
     let names: Vec<&str> = match prop {
-        "C02" | "C03" => vec!["depfile-chain", "msvc-chain", "diamond", "two-outputs", "generated-header", "rspfile", "restat-upstream", "generator"],
+        "C02" | "C03" => vec!["depfile-chain", "msvc-chain", "diamond", "two-outputs", "generated-header", "rspfile", "restat-upstream", "two-objects", "self-touch", "generator"],
         "C08" => vec!["depfile-chain", "two-outputs", "rspfile", "diamond"],
-        "C09" => vec!["depfile-chain", "msvc-chain", "generated-header", "two-outputs"],
-        "C17" => vec!["generator", "generator-f"],
+        "C09" => vec!["depfile-chain", "msvc-chain", "generated-header", "two-outputs", "two-objects", "self-touch"],
+        "C17" => vec!["generator", "generator-f", "generator-split"],
         _ => vec![],
     };
     names.into_iter().map(|n| (format!("hist:{}:{}", n, depth), 16)).collect()
@@ -359,6 +442,24 @@ fn opts(t: &Template, targets: &[String], j: usize, k: Option<usize>, adopt: boo
     }
 }
 
+/// The manifest files that are outputs of command steps (the fragment of a
+/// split manifest and/or the main file).
+fn generated_manifest_files(t: &Template, p: &Project) -> Vec<String> {
+    let mut v = Vec::new();
+    let mut names = vec![t.manifest_name.clone()];
+    if let Some((f, _)) = &p.fragment {
+        names.push(f.clone());
+    }
+    for n in names {
+        if let Some(s) = p.producer(&n) {
+            if !p.steps[s].phony {
+                v.push(n);
+            }
+        }
+    }
+    v
+}
+
 pub fn initial(t: &Template) -> Node {
     exec::clear_dir();
     let mut sim = Sim::new(t.variants[0].clone());
@@ -369,14 +470,18 @@ pub fn initial(t: &Template) -> Node {
     sim.write_manifest(&t.manifest_name);
     sim.reports = t.reports.clone();
     sim.restat_like = t.restat_like.clone();
+    sim.skip_outputs = t.skip_outputs.clone();
+    sim.side_touch = t.side_touch.clone();
     if t.generator {
-        sim.generators.insert(
-            t.manifest_name.clone(),
-            Generator {
-                manifest_name: t.manifest_name.clone(),
-                next: t.variants[0].clone(),
-            },
-        );
+        for f in generated_manifest_files(t, &t.variants[0]) {
+            sim.generators.insert(
+                f.clone(),
+                Generator {
+                    manifest_name: f,
+                    next: t.variants[0].clone(),
+                },
+            );
+        }
     }
     Node {
         snap: exec::snapshot(),
@@ -414,7 +519,7 @@ pub fn edit_alphabet(t: &Template, node: &Node) -> Vec<EditOp> {
             continue;
         }
         for o in st.all_outs() {
-            if *o == t.manifest_name {
+            if *o == t.manifest_name || p.fragment.as_ref().map(|f| f.0 == *o).unwrap_or(false) {
                 continue;
             }
             if node.sim.model.exists(o) {
@@ -514,13 +619,15 @@ pub fn apply_edit(t: &Template, node: &mut Node, op: &EditOp) {
                     node.sim.touch(&s);
                 }
             }
-            node.sim.generators.insert(
-                t.manifest_name.clone(),
-                Generator {
-                    manifest_name: t.manifest_name.clone(),
-                    next,
-                },
-            );
+            for f in generated_manifest_files(t, &next) {
+                node.sim.generators.insert(
+                    f.clone(),
+                    Generator {
+                        manifest_name: f,
+                        next: next.clone(),
+                    },
+                );
+            }
         }
     }
 }
@@ -732,13 +839,16 @@ pub fn judge(t: &Template, before: &Sim, run: &Run, targets: &[String], expect_s
         if stp.phony {
             continue;
         }
+        if stp.all_outs().any(|o| sim.skip_outputs.contains(o)) {
+            continue; // never recorded by construction
+        }
         let d = sim.model.is_dirty(p, s);
         if d.is_dirty() {
             f.push(("skipped-although-out-of-date".into(), format!("{} was not rebuilt although it is out of date: {:?}", stp.outs[0], d)));
             continue;
         }
         for o in stp.all_outs() {
-            if *o == t.manifest_name {
+            if *o == t.manifest_name || p.fragment.as_ref().map(|f| f.0 == *o).unwrap_or(false) {
                 continue;
             }
             match (sim.model.files.get(o), clean.get(o)) {
@@ -887,7 +997,7 @@ impl<'a> Walk<'a> {
                         if let Some(st) = next_sim.project().step_by_cmdline(&c) {
                             let outs: Vec<String> = next_sim.project().steps[st].all_outs().cloned().collect();
                             for o in outs {
-                                if o == t.manifest_name {
+                                if o == t.manifest_name || o.ends_with(".ninja") {
                                     continue;
                                 }
                                 let tick = next_sim.model.tick();
@@ -907,7 +1017,11 @@ impl<'a> Walk<'a> {
                 if matches!(run.result, BuildResult::Success(_)) {
                     // The model adopts every wanted step whose files all exist.
                     let p = next_sim.project().clone();
-                    let wanted = wanted_of(t, &next_sim, tg);
+                    let mut wanted = wanted_of(t, &next_sim, tg);
+                    // The regeneration phase runs in adopt mode as well.
+                    if p.producer(&t.manifest_name).is_some() {
+                        wanted.extend(p.closure(&[t.manifest_name.clone()]));
+                    }
                     for s in p.topo(&wanted) {
                         if next_sim.model.is_dirty(&p, s).is_dirty() {
                             next_sim.model.adopt(&p, s);
@@ -939,7 +1053,7 @@ impl<'a> Walk<'a> {
             if !is_restat {
                 // When the model calls everything clean the repeat is a no-op.
                 let p = next_sim.project();
-                let all_clean = wanted_of(t, &next_sim, &tg).iter().all(|&s| !next_sim.model.is_dirty(p, s).is_dirty());
+                let all_clean = wanted_of(t, &next_sim, &tg).iter().all(|&s| !next_sim.model.is_dirty(p, s).is_dirty() || p.steps[s].phony);
                 if all_clean && !matches!(run2.result, BuildResult::Success(0)) && matches!(run2.result, BuildResult::Success(_)) {
                     self.report(
                         vec![(
@@ -1024,7 +1138,7 @@ impl<'a> Walk<'a> {
                 if self.res.violation_count == before_v {
                     self.res.nontrivial += 1;
                 }
-                if self.res.evaluations % 5003 == 0 {
+                if self.res.samples.is_empty() || self.res.evaluations % 5003 == 0 {
                     let p = self.path.clone();
                     let tn = self.t.name;
                     self.res.sample(|| json!({"template": tn, "history": p}));
